@@ -16,6 +16,7 @@ pub mod c15;
 pub mod c16;
 pub mod common;
 pub mod prog;
+pub mod smallscope;
 
 pub fn by_id(id: &str) -> Option<Box<dyn Property>> {
     match id {
